@@ -130,19 +130,17 @@ func (gn *graphNode) compileIfNeeded(ctx context.Context) (*composableRunnable, 
 		r = cr
 		gn.cr = cr
 	} else if gn.cr != nil {
-		r = gn.cr
+		// a copy: the component's runnable is shared by every compilation of this node, and by every node the
+		// same component value (e.g. one *Lambda) was added as; each gets its own meta and node info, and
+		// compiling again does not write under a run of an earlier compilation
+		cp := *gn.cr
+		r = &cp
 	} else {
 		return nil, errors.New("no graph or component provided")
 	}
 
-	// a component's runnable is shared by every compilation of this node: written once, so that compiling again
-	// does not write under a run of an earlier compilation
-	if r.meta != gn.executorMeta {
-		r.meta = gn.executorMeta
-	}
-	if r.nodeInfo != gn.nodeInfo {
-		r.nodeInfo = gn.nodeInfo
-	}
+	r.meta = gn.executorMeta
+	r.nodeInfo = gn.nodeInfo
 
 	if gn.nodeInfo.outputKey != "" {
 		r = outputKeyedComposableRunnable(gn.nodeInfo.outputKey, r)
